@@ -16,7 +16,7 @@
     behave like [files_for_directory] on a [tree]; that CPython's `fnmatch` is [fnmatch] (differentially tested);
     that the transformer writes only the file it is given (observed through the outside tree's hash). *)
 From Coq Require Import Strings.String.
-From CM Require Import Base.GlobLit Base.Types_Glob Model.Glob Spec.GlobSpec Proofs.GlobFacts Generated.Tables.
+From CM Require Import Base.GlobLit Base.Types_Glob Model.Glob Spec.GlobSpec Spec.GlobDefaults Proofs.GlobFacts Generated.Tables.
 
 Definition defaults : list str * list str := (default_included_paths, default_excluded_paths).
 
@@ -102,18 +102,6 @@ Print Assumptions C05_defaults.
 
 (** ** What the default lists mean (stated for the lists of the pinned tree; the premise is checked by the harness
     against the generated tables, so a change of the lists is reported instead of silently weakening this). *)
-Definition pinned_included : list str := [lit "**.py"; lit "**/*.py"].
-Definition pinned_excluded : list str :=
-  [lit "test/**"; lit "tests/**"; lit "**/__test__/**"; lit "**/__tests__/**"; lit "conftest.py"; lit "build/**";
-   lit "dist/**"; lit "venv/**"; lit "**/site-packages/**"; lit ".venv/**"; lit ".tox/**"; lit ".nox/**";
-   lit ".eggs/**"; lit ".git/**"; lit ".mypy_cache/**"; lit ".pytest_cache/**"; lit ".hypothesis/**"; lit ".coverage*"].
-Definition pinned_excluded_shapes : list shape :=
-  [Prefix (lit "test/"); Prefix (lit "tests/"); Infix (lit "/__test__/"); Infix (lit "/__tests__/");
-   Exact (lit "conftest.py"); Prefix (lit "build/"); Prefix (lit "dist/"); Prefix (lit "venv/");
-   Infix (lit "/site-packages/"); Prefix (lit ".venv/"); Prefix (lit ".tox/"); Prefix (lit ".nox/");
-   Prefix (lit ".eggs/"); Prefix (lit ".git/"); Prefix (lit ".mypy_cache/"); Prefix (lit ".pytest_cache/");
-   Prefix (lit ".hypothesis/"); Prefix (lit ".coverage")].
-
 Definition C05_default_lists_statement (DI DE : list str) : Prop :=
   DI = pinned_included -> DE = pinned_excluded ->
   forall s,
